@@ -167,7 +167,8 @@ static size_t verif_fread(void *dst, size_t size, size_t n, FILE *f)
   return got;
 }
 
-static long verif_ftell(FILE *f) { (void)f; return (long)g_pos; }
+/* ftell: the position, or -1 (a pipe or a terminal is not seekable: ESPIPE) -- C03: standard input lists like a file */
+static long verif_ftell(FILE *f) { (void)f; return nondet_bool() ? -1L : (long)g_pos; }
 static int verif_ferror(FILE *f) { (void)f; return g_rd_err; }
 static void verif_clearerr(FILE *f) { (void)f; g_rd_err = 0; }
 
